@@ -703,6 +703,12 @@ def rule_W_LOOKUP(ctx, d):
         ren = {('param', a.vararg.arg): d.ARGS, ('param', a.kwarg.arg): d.KWDS}
         saw_keyerror = False
         for o in outs:
+            for e in o.st.events:
+                if e.kind == 'FNPASS' and e.args[0][1] in may_evaluate(d.repo):
+                    ctx.ob('W-LOOKUP', None, False)
+                    ctx.fail('W-LOOKUP', cq(d, node.name), '%s() hands the function to %s' % (name, e.args[0][1]),
+                             '%s() passes the wrapped function to %s(), which can evaluate it (its fallback for callables whose signature cannot be inspected '
+                             'calls func(*args, **kwds)): introspection must never run the function' % (name, e.args[0][1]), where(d, e.line), render_path(o))
             bad = [e for e in o.st.events if e.kind in MUTATIONS or e.kind in ('EVAL', 'EVALRAISE', 'LOAD')]
             ok = not bad
             ctx.ob('W-LOOKUP', None, ok)
@@ -729,6 +735,48 @@ def rule_W_LOOKUP(ctx, d):
             if not saw_keyerror:
                 ctx.fail('W-LOOKUP', cq(d, node.name), 'KeyError does not escape',
                          'lookup() does not raise KeyError when nothing is resident for the call', where(d, node.lineno))
+
+
+_MAYEVAL = {}
+
+
+def may_evaluate(repo):
+    """names of klepto._inspect functions that can call the function they are given (decided on the dependence interpretation: some call
+    site's callee may carry the first parameter), transitively"""
+    if id(repo) in _MAYEVAL:
+        return _MAYEVAL[id(repo)]
+    from .deps import DepEngine
+    m = repo.mod('_inspect')
+    direct = set()
+    calls = {}
+    for name, fi in m.functions.items():
+        a = fi.node.args
+        pos = [x.arg for x in a.posonlyargs + a.args]
+        if not pos:
+            continue
+        lab = 'P:' + pos[0]
+        eng = DepEngine(m, field_roots=set([lab, lab + '.func']), inline=False)
+        try:
+            eng.run(fi.node, fi.qual, {})
+        except AnalysisError:
+            direct.add(name)       # cannot be judged: assume it may
+            continue
+        for s in eng.sites:
+            if s.kind != 'call' or s.val is None:
+                continue
+            if any(L in (lab, lab + '.func', lab + '.__call__') for L in s.val.v):
+                direct.add(name)
+            if s.callee in m.functions and s.args and any(lab in x.v for x in s.args[:1]):
+                calls.setdefault(name, set()).add(s.callee)
+    changed = True
+    while changed:
+        changed = False
+        for name, cs in calls.items():
+            if name not in direct and cs & direct:
+                direct.add(name)
+                changed = True
+    _MAYEVAL[id(repo)] = direct
+    return direct
 
 
 def rename(v, ren):
@@ -1276,6 +1324,22 @@ def rule_W_NEW(ctx, d, parts=('dispatch', 'forward'), only=None):
         ctx.ob('W-NEW', '%s.%s' % (d.name, p), ok)
         if not ok:
             ctx.fail('W-NEW', new.qual, 'dispatch ignores %s' % ('/'.join(missing) if p not in nparams else p), why, where(d, new.node.lineno))
+    # an omitted maxsize must not be taken for one of the dispatched values: kwds.get('maxsize') without a default yields None = "unbounded"
+    if 'dispatch' in parts and na.kwarg:
+        kwn = na.kwarg.arg
+        for p in sorted(dep):
+            if p in nparams:
+                continue
+            for t in tested:
+                for x in subterms(t):
+                    if kw_lookup(x, kwn, p) and x[0] == 'call':
+                        dflt = x[2][1] if len(x[2]) > 1 else NONE
+                        ok = is_const(dflt) and dflt[1] is not None and dflt[1] != 0
+                        ctx.ob('W-NEW', '%s default of omitted %s' % (d.name, p), ok)
+                        if not ok:
+                            ctx.fail('W-NEW', new.qual, 'omitted %s read as %s' % (p, render(dflt)),
+                                     '__new__ looks the keyword %s up with default %s: a decorator built without %s is dispatched like %s=%s (to the unbounded / non-caching '
+                                     'class) instead of getting the documented default bound' % (p, render(dflt), p, p, render(dflt)), where(d, new.node.lineno))
     # forwarding: a dispatch to a sibling decorator class hands over every setting that class honours
     va = ('param', na.vararg.arg) if na.vararg else None
     kw = ('param', na.kwarg.arg) if na.kwarg else None
@@ -1344,8 +1408,15 @@ def rule_W_STATE(ctx, d, keys=('maxsize', 'purge'), allow_default=False):
                 distinct.append(v)
         ok = len(distinct) == 1 and distinct[0] is not None and (distinct[0] == ('param', k) or is_const(distinct[0]))
         if not ok and allow_default:
-            # the parameter itself, or a constructed default on the path where it is None
-            ok = all(v == ('param', k) or (v is not None and not contains_term(v, lambda t: t[0] == 'param')) for v in distinct) and ('param', k) in distinct
+            # the parameter itself, or a constructed default - but only on a path where the parameter `is None`: replacing it whenever it is
+            # falsy would also replace legal falsy values (ignore=0 selects the first positional)
+            ok = ('param', k) in distinct
+            for v, o in vs:
+                if v == ('param', k):
+                    continue
+                isnone = o.st.facts.get('truth', {}).get(('cmp', 'is', ('param', k), NONE))
+                if v is None or contains_term(v, lambda t: t[0] == 'param') or isnone is not True:
+                    ok = False
         ctx.ob('W-STATE', '%s.%s' % (d.name, k), ok)
         if not ok:
             bad = [(v, o) for v, o in vs if v != ('param', k)]
